@@ -150,3 +150,30 @@ pub fn random_tree(rng: &mut Rng, data: &[f64], k: usize, style: usize) -> Tree 
     }
     build(rng, &chunks, style)
 }
+
+/// chunkings built to hit "fast paths": chunks with bit-equal means, symmetric chunks (third moment 0),
+/// constant chunks, an observation equal to the running mean, at ordinary, offset and tiny scales
+pub fn special_trees() -> Vec<Tree> {
+    let base: Vec<Vec<Vec<f64>>> = vec![
+        vec![vec![1.0, 3.0], vec![2.0]],
+        vec![vec![2.0], vec![1.0, 3.0]],
+        vec![vec![1.0, 6.0], vec![2.0, 5.0], vec![3.0, 4.0]],
+        vec![vec![1.0, 7.0, 4.0], vec![2.0, 6.0, 3.0, 5.0]],
+        vec![vec![0.0, 4.0], vec![1.0, 3.0]],
+        vec![vec![5.0, 5.0], vec![5.0], vec![5.0, 5.0, 5.0]],
+        vec![vec![1.0, 2.0], vec![5.0, 7.0]],
+        vec![vec![1.0, 2.0, 3.0], vec![4.0, 5.0, 6.0]],
+        vec![vec![1.0, 2.0], vec![3.0, 4.0], vec![5.0, 6.0], vec![7.0, 8.0]],
+        vec![vec![1.0, 3.0, 2.0, 10.0]],
+        vec![vec![0.0], vec![0.0, 0.0], vec![4.0, -4.0]],
+        vec![vec![4.0, 6.0], vec![3.0, 7.0], vec![5.0]],
+    ];
+    let mut out = Vec::new();
+    for (scale, off) in [(1.0, 0.0), (1.0, 1e9), (1e-18, 0.0), (1e-20, 0.0), (1e12, 0.0), (0.5, -1e6)] {
+        for chunks in &base {
+            let ch: Vec<Vec<f64>> = chunks.iter().map(|c| c.iter().map(|x| x * scale + off).collect()).collect();
+            out.extend(all_trees(&ch));
+        }
+    }
+    out
+}
